@@ -144,6 +144,28 @@ macro_rules! unweighted_subject {
                 if let Some(x) = <$t as StartExtra>::start_extra(s) {
                     return x;
                 }
+                // via 7 / 8 / 9: the start digraph is the RESULT of an operation
+                // (complement, converse, union with the converse) on generated arcs
+                if (7..=9).contains(&s.via) {
+                    let n = s.order.max(1);
+                    let mut base = <$t>::empty(n);
+                    let mut bm = start_model(n, &s.arcs);
+                    for &(u, v) in &s.arcs {
+                        base.add_arc(u, v);
+                    }
+                    let g = match s.via {
+                        7 => graaf::Complement::complement(&base),
+                        8 => graaf::Converse::converse(&base),
+                        _ => graaf::Union::union(&base, &graaf::Converse::converse(&base)),
+                    };
+                    let arcs: Vec<(usize, usize)> = match s.via {
+                        7 => (0..n).flat_map(|u| (0..n).map(move |v| (u, v))).filter(|&(u, v)| u != v && !bm.has(u, v)).collect(),
+                        8 => bm.a.keys().map(|&(u, v)| (v, u)).collect(),
+                        _ => bm.a.keys().flat_map(|&(u, v)| [(u, v), (v, u)]).collect(),
+                    };
+                    bm = start_model(n, &arcs);
+                    return (g, Some(bm));
+                }
                 let n = s.order.max(1);
                 let plain = |n: usize, arcs: &[(usize, usize)]| {
                     let mut g = <$t>::empty(n);
@@ -685,6 +707,8 @@ pub fn case_from_raw(repr: u8, n: usize, via: u8, gen_kind: u8, seed: u64, raw_a
                     4 => 2,
                     // AdjacencyMap: half of these start from a filter_vertices result
                     5 if repr == 1 => 5 + (seed % 2) as u8,
+                    // unweighted representations: the result of complement / converse / union
+                    6 if repr < 4 && n <= 40 => 7 + (seed % 3) as u8,
                     5 | 6 => 3,
                     _ => 4,
                 };
@@ -786,7 +810,7 @@ impl Prop for C01 {
     type Case = Case;
     const ID: &'static str = "C01";
     const NUM: u64 = 1;
-    const RULE: &'static str = "stateful / model-based: representation in {AdjacencyList, AdjacencyMap, AdjacencyMatrix, EdgeList, AdjacencyListWeighted<usize>, AdjacencyListWeighted<isize>}; start digraph from empty+adds, a conversion, From<rows|arcs>, a deterministic generator, a seeded random generator or (AdjacencyMap) a filter_vertices result whose vertex set is a run not starting at 0 / every other vertex (order 1..24 quick / 1..70 thorough, orders 8, 9, 11, 16 over-represented for the bit matrix); then 0..40 (thorough 0..120) operations add_arc / add_arc_weighted / remove_arc / AdjacencyMatrix::toggle with vertex arguments in range (~70%), equal, = order, = order+1, far (1000, usize::MAX) and arbitrary weights; after every step order, vertices, arcs, weights, size, has_arc / arc_weight over all pairs of V + two ids outside V are compared with a BTreeSet model. About one random case in 25 has a large order (17..140, weighted towards 63..66, 96, 127..130, 140; at most 700 arcs). A low-rate 'huge' leg adds digraphs of 200..3100 vertices with O(n) arcs (paths, circuits, stars, wheels, trees, one row of exactly 255/256/257 out-neighbours, arcs in the last rows, complete below 300). Non-trivial = the history removes (or toggles off) a present arc after an add and contains a rejected call that is not the last step; distinct = distinct serialised case.";
+    const RULE: &'static str = "stateful / model-based: representation in {AdjacencyList, AdjacencyMap, AdjacencyMatrix, EdgeList, AdjacencyListWeighted<usize>, AdjacencyListWeighted<isize>}; start digraph from empty+adds, a conversion, From<rows|arcs>, a deterministic generator, a seeded random generator (AdjacencyMap) a filter_vertices result whose vertex set is a run not starting at 0 / every other vertex, or the result of complement / converse / union (order 1..24 quick / 1..70 thorough, orders 8, 9, 11, 16 over-represented for the bit matrix); then 0..40 (thorough 0..120) operations add_arc / add_arc_weighted / remove_arc / AdjacencyMatrix::toggle with vertex arguments in range (~70%), equal, = order, = order+1, far (1000, usize::MAX) and arbitrary weights; after every step order, vertices, arcs, weights, size, has_arc / arc_weight over all pairs of V + two ids outside V are compared with a BTreeSet model. About one random case in 25 has a large order (17..140, weighted towards 63..66, 96, 127..130, 140; at most 700 arcs). A low-rate 'huge' leg adds digraphs of 200..3100 vertices with O(n) arcs (paths, circuits, stars, wheels, trees, one row of exactly 255/256/257 out-neighbours, arcs in the last rows, complete below 300). Non-trivial = the history removes (or toggles off) a present arc after an add and contains a rejected call that is not the last step; distinct = distinct serialised case.";
     const ASSUMPTIONS: &'static [&'static str] = &[
         "panic messages are not compared",
         "for AdjacencyMap nothing is asserted about how large an id may be (ids up to 2^20 are used)",
